@@ -116,9 +116,9 @@ Inductive pv :=
 | PInt (z : Z)
 | PBytes (b : bytes)
 | PBStr (b : bytes)                      (* ByteString(b) *)
-| PList (xs : list pv)                   (* list (and the tuples cbor2 builds inside map keys) *)
-| PIList (xs : list pv)                  (* IndefiniteList *)
-| PDict (kvs : list (pv * pv))           (* dict, insertion order *)
+| PList (xs : list pv)                   (* list (and the tuples cbor2 builds inside map keys; FrozenList in converted keys) *)
+| PIList (xs : list pv)                  (* IndefiniteList (IndefiniteFrozenList in converted keys) *)
+| PDict (kvs : list (pv * pv))           (* dict, insertion order (FrozenDict in converted keys) *)
 | PTag (t : N) (v : pv)                  (* cbor2.CBORTag *)
 | PObj (id : N) (fts : list ty) (fs : list pv)   (* instance of the class TCls id fts *)
 | PRaw (v : pv).                         (* RawPlutusData(v) *)
@@ -195,13 +195,18 @@ Definition dict_of_list (l : list (pv * pv)) : list (pv * pv) :=
   fold_left (fun d kv => dict_set d (fst kv) (snd kv)) l [].
 
 (* hash(x) succeeds: int, bytes, ByteString, tuple of hashables, CBORTag over a hashable value;
-   list, IndefiniteList, dict and dataclass instances (eq=True without unsafe_hash) are unhashable.
+   list, IndefiniteList, dict and RawPlutusData (a dataclass with eq=True and no hash) are unhashable.
+   Typed classes are declared `@dataclass(unsafe_hash=True)` (the way the script-context classes that serve as
+   Plutus map keys -- credentials, token names, slots -- have to be declared; the driver does so for every
+   generated class): hash(obj) is the hash of the tuple of its field values, so it succeeds exactly when
+   every field value is hashable.
    `tup` says whether a PList stands for a tuple (cbor2 immutable decoding) or a list. *)
 Fixpoint hashable (tup : bool) (v : pv) : bool :=
   match v with
   | PInt _ | PBytes _ | PBStr _ => true
   | PList xs => tup && forallb (hashable tup) xs
-  | PIList _ | PDict _ | PObj _ _ _ | PRaw _ => false
+  | PObj _ _ fs => forallb (hashable tup) fs
+  | PIList _ | PDict _ | PRaw _ => false
   | PTag _ x => hashable tup x
   end.
 
@@ -365,7 +370,14 @@ Definition raw_from_cbor (bs : bytes) : res pv := do c <- decode_res bs; do v <-
 Definition raw_from_dict (j : json) : res pv := do v <- r_undict j; Ok (PRaw v).
 
 (* ================================================================== typed PlutusData *)
-(* CBORSerializable.to_primitive (PlutusData.to_shallow_primitive + _dfs); identity on primitives *)
+(* CBORSerializable.to_primitive (PlutusData.to_shallow_primitive + _dfs); identity on primitives.
+   Map keys: _dfs(k, freeze=True) converts the key exactly like a value and then replaces, at every level of
+   the key, list by FrozenList, IndefiniteList by IndefiniteFrozenList and dict by FrozenDict so that the
+   converted key (a CBORTag when the key is a class instance) can be hashed.  The frozen twins are written by
+   default_encoder the way the originals are (IndefiniteFrozenList indefinite 9f..ff, FrozenList definite,
+   FrozenDict as a map), and compare equal to them; in this model PList / PIList / PDict stand for both the
+   original and its frozen twin, i.e. a key is converted by to_prim like any other value.  (That the encoder
+   really treats the twins alike is what the correspondence run checks on every map keyed by class instances.) *)
 Fixpoint to_prim (v : pv) : pv :=
   match v with
   | PObj id _ fs =>
